@@ -269,6 +269,10 @@ class Ctx(object):
         names = []
         if os.path.isdir(d):
             names = sorted(x for x in os.listdir(d) if x.endswith(".json"))
+            # sensitivity measurements of the generated search alone (vlib/recheck_seeded.py --no-replays)
+            skip = tuple(x for x in os.environ.get("VERIF_SKIP_REPLAY_PREFIXES", "").split(",") if x)
+            if skip:
+                names = [x for x in names if not x.startswith(skip)]
         try:
             # the stored minimal witness of every listed known finding runs first, so the
             # KNOWN-FINDING line does not depend on the random search hitting the class
